@@ -340,9 +340,20 @@ static void c10_tests()
 
 // ---------------------------------------------------------------- C09: verified copies of one cell
 template<typename N>
-static void verify_case(const std::vector<std::vector<W>>& scr)
+static void verify_case(std::vector<std::vector<W>> scr)
 {
   Cell<N> cell;
+  {
+    // a guest representation wider than the application type: values the application type cannot
+    // hold appear in the cell after a value that passed the conversion's range check
+    using G = GuestRep<N>;
+    const W nmax = (W)std::numeric_limits<N>::max(), gmax = (W)std::numeric_limits<G>::max();
+    if (gmax > nmax && !std::is_same_v<N, bool>) {
+      scr.push_back({ 5, nmax + 1 + 7 });
+      scr.push_back({ 5, 5, ((W)1 << (8 * sizeof(N))) + 7 });
+      scr.push_back({ nmax + 1 + 7, 5 });
+    }
+  }
   for (auto& script : scr) {
     W seen = -7777, used = -7777;
     int calls = 0;
@@ -358,6 +369,7 @@ static void verify_case(const std::vector<std::vector<W>>& scr)
     lw::disarm();
     tr::Ev e("fetch");
     e.str("kind", "verify").str("what", "copy_and_verify").str("nty", NName<N>::v);
+    e.num("bits", std::is_same_v<N, bool> ? 1 : 8 * (long)sizeof(N)).boolean("signed", std::is_signed_v<N>);
     put_script(e, script);
     e.str("out", r).wide("seen", seen).wide("used", used).num("calls", calls).num("reads", lw::g.reads);
     out.put(e);
@@ -378,6 +390,7 @@ static void verify_case(const std::vector<std::vector<W>>& scr)
     lw::disarm();
     tr::Ev e("fetch");
     e.str("kind", "verify").str("what", "pointer.copy_and_verify").str("nty", NName<N>::v);
+    e.num("bits", std::is_same_v<N, bool> ? 1 : 8 * (long)sizeof(N)).boolean("signed", std::is_signed_v<N>);
     put_script(e, script);
     e.str("out", r).wide("seen", seen).wide("used", used).num("calls", calls).num("reads", lw::g.reads);
     out.put(e);
@@ -390,6 +403,7 @@ static void verify_case(const std::vector<std::vector<W>>& scr)
     lw::disarm();
     tr::Ev e("fetch");
     e.str("kind", "verify").str("what", "UNSAFE_unverified").str("nty", NName<N>::v);
+    e.num("bits", std::is_same_v<N, bool> ? 1 : 8 * (long)sizeof(N)).boolean("signed", std::is_signed_v<N>);
     put_script(e, script);
     e.str("out", r).wide("seen", seen).wide("used", seen).num("calls", 1).num("reads", lw::g.reads);
     out.put(e);
